@@ -108,6 +108,8 @@ def gen_valid(rng, tier):
         out.append(Case(rust, "(%s %s)" % ("CReq" if i % 2 == 0 else "CResp", coq), rust.split()[1], {"expect_dec": exp}))
     for nlen in [0, 1, 255, 65536, 16777215, 16777216, 16777217, 16777218, 20000000]:
         out.append(Case("wframe %d" % nlen, "(CWriteFrameLen %d)" % nlen, "wframe", {"wlen": nlen}))
+    for nlen in [0, 1, 4095, 65536, 16777215, 16777216, 16777217]:
+        out.append(Case("rtframe %d" % nlen, "(CFrameRoundTrip %d)" % nlen, "rtframe", {"rtlen": nlen}))
     return out
 
 
@@ -171,6 +173,11 @@ def oracle_valid(case, impl):
         got = impl.split(" dec=", 1)[1] if " dec=" in impl else impl
         if got != want:
             return "decode(encode m) = %s but m = %s" % (got[:200], want[:200])
+    if "rtlen" in case.meta:
+        n = case.meta["rtlen"]
+        want = "ok" if n <= 16 * 1024 * 1024 else "err:toolarge"
+        if impl != want:
+            return "a frame with a body of %d bytes written by write_message is read back as %s, expected %s" % (n, impl, want)
     if "wlen" in case.meta:
         n = case.meta["wlen"]
         want = ("hdr:" + struct.pack("<I", n).hex()) if n <= 16 * 1024 * 1024 else "err:toolarge"
